@@ -1,4 +1,4 @@
-CONSTANTS P = 79  A = 0  B = 3  Gx = 1  Gy = 2  N = 97  Iterated = FALSE
+CONSTANTS P = 79  A = 0  B = 3  Gx = 1  Gy = 2  N = 97  Scope = "full"  Iterated = FALSE
 SPECIFICATION Spec
 INVARIANT GroupLaw
 CHECK_DEADLOCK FALSE
